@@ -513,7 +513,7 @@ def textBlock (s : Tcb) (seg : Hdr) (text : List UInt8) (textLen : Seq) : B :=
   | .Established | .SynSent | .SynReceived | .FinWait1 | .FinWait2 =>
     if !(s.isInRcvWindow seg.seq || s.isInRcvWindow (seg.seq + textLen)) then
       .error "panic:assert:process_segment.text_in_window" else
-    let alreadyReceived : Seq := s.rcv.nxt - seg.seq + BitVec.ofNat 32 seg.ctl.syn.toNat
+    let alreadyReceived : Seq := s.rcv.nxt - seg.seq - BitVec.ofNat 32 seg.ctl.syn.toNat
     if textLen.toNat < alreadyReceived.toNat then .error "panic:sub-overflow:process_segment.unreceived" else
     let unreceived := textLen.toNat - alreadyReceived.toNat
     let inLen := s.incoming.text.length % 4294967296
